@@ -47,7 +47,7 @@ def binding(report):
     """Corrupt an accepted trace in several ways; each corruption must be rejected with a named item."""
     cfg = dict(kind='two', n_networks=1, blob='multi', seed=7, mseed=0,
                history=[['run', dict(n_eff=40, n_like_rel=400, discard_exploration=True)], ['posterior'],
-                        ['toggle', False], ['posterior']])
+                        ['toggle', False], ['posterior'], ['observe', 'occupation']])
     r = history.run_history(cfg)
     ev = r['events']
     scratch = common.scratch('bind_')
@@ -95,8 +95,12 @@ def binding(report):
             rows[0], rows[-1] = rows[-1], rows[0]
         def c9(e):      # float residual of log_z too large
             e[mid]['resid']['log_z'] = 5000
+        def c10(e):     # the reported occupation matrix differs from the one the signatures give
+            k = [i for i, x in enumerate(e) if x['event']['name'] == 'Observe'][-1]
+            e[k]['event']['occ'][-1][0] += 1
         for tag, fn in (('nsamp+1', c1), ('swap-ids', c2), ('drop-event', c3), ('blob-code', c4), ('inside-later-bound', c5),
-                        ('nlike+1', c6), ('tq-entry-lost', c7), ('posterior-rows-reordered', c8), ('logz-residual', c9)):
+                        ('nlike+1', c6), ('tq-entry-lost', c7), ('posterior-rows-reordered', c8), ('logz-residual', c9),
+                        ('occupation-entry', c10)):
             e2 = copy.deepcopy(ev)
             fn(e2)
             names, where = run(tag, e2)
